@@ -6,6 +6,9 @@ import rtflite.pagination.core as core
 from rtflite.pagination.core import PageBreakCalculator as PBC
 
 from vf.fakes import FakeFrame, MetaFrame, PLStub
+from vf.hlib import swapped
+import polars as _real_pl
+from rtflite.strwidth import get_string_width as _real_gsw
 
 STUBS_ASSIGN = ["metadata frame -> MetaFrame (height, to_dicts()); pl.DataFrame(rows) -> recording object"]
 STUBS_META = STUBS_ASSIGN + ["data frame -> FakeFrame dict-of-lists (height, width, columns, row(i, named), df[col][i])",
@@ -15,9 +18,8 @@ STUBS_META = STUBS_ASSIGN + ["data frame -> FakeFrame dict-of-lists (height, wid
 def assign(heights, subs, grps, nrow, add, new_page, conts=None):
     """real PageBreakCalculator._assign_pages on n rows -> list of page numbers.
     conts[i] = heading rows repeated at the top of a page that row i opens as a continuation of its group."""
-    saved = core.pl
-    core.pl = PLStub
     try:
+      with swapped((_real_pl, PLStub)):
         rows = [{"row_index": i, "total_rows": h, "is_subline_start": s, "is_group_start": g, "page": 0}
                 for i, (h, s, g) in enumerate(zip(heights, subs, grps))]
         if conts is not None:
@@ -26,7 +28,7 @@ def assign(heights, subs, grps, nrow, add, new_page, conts=None):
         out = PBC._assign_pages(NS.of(PBC, pagination=NS(nrow=nrow)), MetaFrame(rows), add, new_page)
         return [r["page"] for r in out.to_dicts()]
     finally:
-        core.pl = saved
+        pass
 
 
 def _fill(pages, heights, conts, upto, page):
@@ -103,23 +105,17 @@ def calc_ns(nrow):
 def metadata(cols, col_widths, page_by, subline_by, removed, nrow, add, new_page, width_of, calls=None, table_attrs=None):
     """real calculate_row_metadata (+ _calculate_header_rows + _assign_pages) on a FakeFrame.
     width_of(text, font, font_size) replaces get_string_width."""
-    saved = (core.pl, core.get_string_width)
-
     def gsw(text, font="Times New Roman", font_size=12, unit="in", dpi=72.0):
         if calls is not None:
             calls.append((text, font, font_size))
         return width_of(text, font, font_size)
 
-    core.pl = PLStub
-    core.get_string_width = gsw
-    try:
+    with swapped((_real_pl, PLStub), (_real_gsw, gsw)):
         df = FakeFrame(cols)
         out = PBC.calculate_row_metadata(calc_ns(nrow), df, col_widths, page_by=page_by, subline_by=subline_by,
                                          removed_column_indices=removed, additional_rows_per_page=add,
                                          new_page=new_page, table_attrs=table_attrs)
         return out.to_dicts()
-    finally:
-        core.pl, core.get_string_width = saved
 
 
 def sig(n, spec, extra=""):
